@@ -191,11 +191,24 @@ fn run_l1(ctx: &mut Ctx, f: &Fam) {
     // one read of the output fails once (EIO on a sector, EINTR) while the prior content is
     // re-ordered in place: whatever the clone makes of it, Ok means the source is there
     if f.seed_output && error_family {
-        let reads = base.ops().iter().filter(|o| matches!(o, FileOp::Read { .. })).count() as u64;
+        let read_ops: Vec<usize> = base.ops().iter().filter_map(|o| if let FileOp::Read { len, .. } = o { Some(*len) } else { None }).collect();
+        let reads = read_ops.len() as u64;
+        // the scan of the old content ends with a read that returns nothing; the reads after it
+        // belong to the re-ordering (a chunk read to be copied, or to be kept in memory while
+        // its place is overwritten) -- few among many, so half of the faults are aimed at them
+        let after_scan: Vec<u64> = match read_ops.iter().position(|l| *l == 0) {
+            Some(p) => ((p as u64 + 1)..reads).collect(),
+            None => Vec::new(),
+        };
         for _ in 0..reads.min(6) {
             let file = SimFile::new(prior.clone());
             file.with(|g| g.fixed_size = f.blockdev);
-            let k = gen::draw(reads as u32) as u64;
+            let k = if !after_scan.is_empty() && gen::chance(1, 2) {
+                simkit::count("probe:read-fault-aimed-at-the-re-ordering");
+                after_scan[gen::draw(after_scan.len() as u32) as usize]
+            } else {
+                gen::draw(reads as u32) as u64
+            };
             let kind = *gen::t(|t| t.pick(&[std::io::ErrorKind::Other, std::io::ErrorKind::Interrupted, std::io::ErrorKind::UnexpectedEof]));
             file.with(|g| g.read_fault = Some((k, kind)));
             let o1 = clone_on(&file, true, true);
@@ -424,18 +437,38 @@ pub fn run(ctx: &mut Ctx) {
     // source is there; the re-run completes it.
     if error_family && f.seed_output && !ctx.failed() {
         reset_output(&f);
+        // (two thirds with short reads at the seam: a scan of one or two large reads has no
+        // "middle" for a fault to land in -- nothing buffered, nothing read ahead)
+        let short_before = sys::with(|s| s.short_read_pct);
+        if gen::chance(2, 3) {
+            sys::with(|s| s.short_read_pct = 80);
+        }
         let (o0, _, _) = clone_once(&env, true, true, false, None);
-        let reads = sys::with(|s| s.events_for("out.bin").filter(|e| e.op == Op::Read && e.ret > 0).count() as u64);
+        let read_rets: Vec<i64> = sys::with(|s| s.events_for("out.bin").filter(|e| e.op == Op::Read).map(|e| e.ret).collect());
+        let reads = read_rets.len() as u64;
+        // (as at the library level: half of the faults go to the reads that follow the scan)
+        let after_scan: Vec<u64> = match read_rets.iter().position(|r| *r == 0) {
+            Some(p) => ((p as u64 + 1)..reads).filter(|i| read_rets[*i as usize] > 0).collect(),
+            None => Vec::new(),
+        };
         if o0.is_success() && reads > 0 {
             for _ in 0..reads.min(5) {
                 reset_output(&f);
-                let k = gen::draw(reads as u32) as u64;
+                let k = if !after_scan.is_empty() && gen::chance(1, 2) {
+                    simkit::count("probe:read-fault-aimed-at-the-re-ordering");
+                    after_scan[gen::draw(after_scan.len() as u32) as usize]
+                } else {
+                    gen::draw(reads as u32) as u64
+                };
                 let (o1, _, fired) = clone_once_op(&env, true, true, false, Some((k, FaultAction::Errno(libc::EIO))), Op::Read);
                 fired_total += fired;
                 let desc = json!({"scenario": f.desc, "fault": format!("read call {} of {} on the output fails with EIO", k, reads), "outcome": o1.short()});
                 if matches!(o1, Outcome::Panic(_) | Outcome::StepBudget | Outcome::Deadlock) {
                     ctx.fail(&format!("faulted-outcome:{}", o1.class()), format!("an in-place clone with a failing read of the output ended with {}; {}", o1.short(), desc));
                     return;
+                }
+                if fired > 0 {
+                    simkit::count(if o1.is_success() { "probe:output-read-fault:clone-succeeded" } else { "probe:output-read-fault:clone-failed" });
                 }
                 if fired > 0 && o1.is_success() {
                     let out = scen::get_file("out.bin").unwrap_or_default();
@@ -454,6 +487,7 @@ pub fn run(ctx: &mut Ctx) {
                 }
             }
         }
+        sys::with(|s| s.short_read_pct = short_before);
     }
     if ctx.want_sample {
         ctx.verdict.sample = Some(json!({"scenario": f.desc, "writes_uninterrupted": w, "crash_points": ks, "family": if error_family { "write-error" } else { "crash" }}));
